@@ -208,15 +208,27 @@ CHECKS = {
             "grid, random inputs and an extreme-magnitude stream (widths 1e-300..1.8e308, eta up to 1e300, draws next to 0 and 1) on which the "
             "Lean-evaluated theorem hypotheses are compared with an independent evaluation and the theorems' conclusion is evaluated on the real "
             "result; the statement is evaluated on the real results (isfinite, not complex, bounds exact, sums within the proved bound, "
-            "strategies > 0).",
-            TB + "partial because: that CPython's binary64 arithmetic and libm pow satisfy the laws of the rounded semantics (monotone rounding, "
+            "strategies > 0). TRANSLATOR TIE: on every run harness/py2lean_c10.py re-reads cxBlend, cxSimulatedBinary, "
+            "cxSimulatedBinaryBounded, cxESBlend, mutGaussian, mutPolynomialBounded (and mutESLogNormal, translated without a theorem) from the "
+            "current source, renders them in state-passing style over the model's tape interface (in-place stores ind[i] = v as indexed list "
+            "updates, IndexError as an outcome), and the Lean kernel re-checks Gen.<f>_loop1_step / Gen.<f>_eq_model (GenEq/C10.lean.tmpl, "
+            "12 theorems): the regenerated function equals RealOps.<f> for every input and tape AT EVERY SCALAR (reals, Float and the rounded "
+            "semantics alike), so the real and the rounded C10 theorems are about the code as it is now; the index-loop / structural-loop "
+            "bridge is proved once per loop shape (Lemmas/C10Gen.lean). Any change of a formula, literal, guard, draw order or store of these six "
+            "functions breaks an obligation whatever its numerical size.",
+            TB + "translator tie: the rendering rules of harness/py2lean_c10.py (+ the expression layer of harness/py2lean.py) and Core/GenPreludeC10.lean "
+            "are trusted, parameters typed by a signature table, distinct arguments = distinct lists with copy semantics, float exceptions not rendered; "
+            "mutESLogNormal has no equality theorem yet (correspondence only); a behaviour-preserving rewrite that leaves the sub-language or changes "
+            "the operation order is reported as an unproved obligation (no-failing-input-found), not silently accepted. "
+            "partial because: that CPython's binary64 arithmetic and libm pow satisfy the laws of the rounded semantics (monotone rounding, "
             "monotone sign-correct pow, exp finite up to 709 and >= 2^-k from -0.693k on) and the standard error model is trusted and probed, not "
             "proved; the ES clause 'positive strategies stay positive' holds for floats only inside the proved boundary (outside: exp underflow "
             "zeroes a strategy for c >= ~61 or subnormal strategies, OverflowError of exp - recorded reading); the rounded theorems for unbounded "
             "SBX take the representable caps C, P as parameters (no binary64 instance of Arith is constructed); "
             "libm agreement CPython/Lean Float; random.gauss(mu,sigma)=mu+z*sigma; the two individuals of a crossover are distinct objects; "
             "magnitudes: width xu-xl and parent sum x1+x2 finite doubles (else nan genes, recorded reading).",
-            "Lean 4 proof over a RealLike-polymorphic model + forced-tape differential correspondence (Float) + oracle"),
+            "Lean 4 proof over a RealLike-polymorphic model + forced-tape differential correspondence (Float) + oracle "
+            "+ translator tie (definitions regenerated from source, kernel-checked equal to the model)"),
     "C04": ("full",
             "Both procedures are proved equal to the peeling specification for every population of equal-length fitnesses over any ordered field and every k: "
             "quadratic sort (C04.sortStd_eq_peel, sortStd_front_iff_depth, sortStd_every_individual_once, sortStd_subperm, sortStd_equal_fitness_same_front, "
@@ -493,8 +505,14 @@ CHECKS = {
             "Correspondence through the compiled driver end to end (spea2e: weights, weighted values and recorded pivot draws in, selection out; nsga3e: weighted values, "
             "reference points, solve answer and recorded shuffles in, selection out) and stage by stage on implementation-captured fronts, association, distances and densities "
             "(all magnitudes, incl. values j*1e150..1e300 whose squared distances overflow); the statement clauses are recomputed independently "
-            "as oracle (brute-force ranks, perpendicular distance, balance from the returned selection).",
-            TB + "the normalisation is modelled (ideal_min, extreme_argmin, intercepts_cases, intercepts_pos, norm_denominator_pos in full for the code after fix F21, "
+            "as oracle (brute-force ranks, perpendicular distance, balance from the returned selection). "
+            "+ translator tie (definitions regenerated from source, kernel-checked against the model): _partition, _randomizedPartition, _randomizedSelect, "
+            "gen_refs_recursive and the deletion loop of selSPEA2 are re-rendered from deap/tools/emo.py on every run (harness/py2lean_c07.py: imperative sub-language, "
+            "state-passing, randint from the tape, fuel) and Gen.partition/randomizedPartition/randomizedSelect_refines_model (whenever the model answers, the regenerated code "
+            "answers the same), Gen.genRefs_eq_model (equality over Q on the domain), Gen.spea2_del_refines_model (whenever the code finishes it computed delDesc) are re-proved.",
+            TB + "translator tie: refinement, not equality, where the model answers none for a negative index that CPython wraps; the rest of selSPEA2 (attribute access, "
+            "comprehensions) and the numpy functions are refused by the translator and stay tied by the differential correspondence only; "
+            "the normalisation is modelled (ideal_min, extreme_argmin, intercepts_cases, intercepts_pos, norm_denominator_pos in full for the code after fix F21, "
             "association_translation_invariant) with numpy.linalg.solve as a parameter (any solve: the acceptance test guards its answer); the argmin theorem is over R, "
             "correspondence with tolerance 1e-9, near-ties compared on distances only (nsga3f/nsga3e lines are emitted for calls without a near-tie). The end-to-end SPEA2 model is exact "
             "arithmetic and is compared only on inputs whose float arithmetic is exact (decided from the input alone); for all other magnitudes the model is driven with the float "
